@@ -7,6 +7,7 @@ KEYS = {
     'R-C03-5/C04-3/verifier/designated.generators.pc_gens.g_base_compressed_vec', 'R-C03-5/C04-3/verifier/designated.generators.pc_gens.h_base_compressed',
     'R-C04-3/verifier/designated.generators.pc_gens.g_base_compressed_vec', 'R-C04-3/verifier/designated.generators.pc_gens.h_base_compressed',
     'R-C05-6/C04-3/verifier/designated.generators.pc_gens.g_base_compressed_vec', 'R-C05-6/C04-3/verifier/designated.generators.pc_gens.h_base_compressed',
+    'R-C02-10/C04-3/verifier/designated.generators.pc_gens.g_base_compressed_vec', 'R-C02-10/C04-3/verifier/designated.generators.pc_gens.h_base_compressed',
 }
 
 
